@@ -4,6 +4,7 @@ import (
 	"go/token"
 	"fmt"
 	"os"
+	"runtime/debug"
 	"path/filepath"
 	"go/types"
 	"sort"
@@ -51,6 +52,9 @@ func verifyFunction(prog *Program, specs *Specs, key string) (res *FuncResult) {
 	defer func() {
 		if x := recover(); x != nil {
 			res.Fatal = fmt.Sprintf("engine panic in %s: %v", key, x)
+			if os.Getenv("GOVC_TRACE") != "" {
+				res.Fatal += "\n" + string(debug.Stack())
+			}
 		}
 	}()
 	r := newRun(prog, specs, fn, spec)
